@@ -25,7 +25,7 @@ CASES = [
     m("energy loop skips the first molecule", "C03-G", "quantarhei/builders/aggregate_states.py",
       "        k = 0\n        for nn in self.elsignature:\n            en += \\", "        k = 0\n        for nn in self.elsignature[1:]:\n            en += \\"),
     m("one-exciton coupling index shift dropped", "C03-F", A, "                        kk = state1.index - 1\n", "                        kk = state1.index\n"),
-    m("dipole of a fixed molecule", "C03-G", A, "        eldip = self.get_dipole(exindx, 0, 1)", "        eldip = self.get_dipole(0, 0, 1)"),
+    m("dipole of a fixed molecule", "C03-G", A, "        eldip = self.get_dipole(exindx, min(n1, n2), max(n1, n2))", "        eldip = self.get_dipole(0, min(n1, n2), max(n1, n2))"),
     t("formula with common denominator", I,
       "    cc = (np.dot(d1,d2)/(RR**3)\n        - 3.0*np.dot(d1,R)*np.dot(d2,R)/(RR**5))", "    cc = (np.dot(d1,d2)*RR**2\n        - 3.0*np.dot(d1,R)*np.dot(d2,R))/(RR**5)"),
 ]
@@ -82,4 +82,13 @@ CASES += [
         (AB3, "        if self.coupling_initiated:\n            self.resonance_coupling = numpy.delete(\n                numpy.delete(self.resonance_coupling, im, 0), im, 1)\n", "", 1)]},
     {"name": "add_Molecule leaves the coupling matrix (the repaired defect)", "kind": "mutant", "rule": "C03-I", "edits": [
         (AB3, "        if self.coupling_initiated:\n            rc = numpy.zeros((self.nmono,self.nmono), dtype=numpy.float64)\n            rc[:self.nmono-1,:self.nmono-1] = self.resonance_coupling\n            self.resonance_coupling = rc\n", "", 1)]},
+]
+
+_AS = "quantarhei/builders/aggregate_states.py"
+_EN = "            self.convert_energy_2_current_u(\n                    self.aggregate.monomers[k].elenergies[nn])\n"
+CASES += [
+    {"name": "level energy taken from the public getter and converted again (seeded change of round 6)", "kind": "mutant", "rule": "C03-G", "edits": [
+        (_AS, _EN, "            self.convert_energy_2_current_u(\n                    self.aggregate.monomers[k].get_energy(nn))\n", 1)]},
+    {"name": "level energy taken from the public getter, converted once", "kind": "twin", "edits": [
+        (_AS, _EN, "            self.aggregate.monomers[k].get_energy(nn)\n", 1)]},
 ]
